@@ -307,11 +307,12 @@ def note_low_temperature(chk, fam, text, r):
 def run(chk):
     quick = chk.tier == "quick"
     ok, log = chk.prove(["props/Properties_C17_loops.vo", "extract/Extract_C01.vo", "extract/Extract_ED.vo"],
-                        extra_props=["Properties_C01_source.v", "Properties_Spine.v"])   # Spine: end-to-end composition of the layers for G
+                        extra_props=["Properties_C01_source.v", "Properties_C01_copy.v", "Properties_Spine.v"])   # Spine: end-to-end composition of the layers for G
     chk.extra["c17_loops_theorems"] = pv.count_obligations("Properties_C17_loops.v")
     ax17, _ = pv.print_assumptions("Properties_C17_loops.v") if ok else ({}, "")
     chk.extra["c17_loops_axioms"] = ax17
-    chk.trusted += ["translator/gen_c01.py and translator/cexpr.py",
+    chk.trusted += ["translator/gen_copy.py (~150 lines: regular expressions over the copy constructor's initialiser list and body) and the meaning coq/theories/CopyShapes.v gives to such a constructor (field-wise state, base classes Thermal = {beta}, ComputableObject = {Status}); a constructor outside the recognised shape falls back to the snapshot and copies are then judged by the runs only",
+                    "translator/gen_c01.py and translator/cexpr.py",
                     "translator/gen_lehmann.py with translator/cstmt.py (statement splitter + shape recognition): reads, one generated file per C++ function, "
                     "the control structure of GreensFunctionPart::compute, TermList::add_term / operator(), the call operators of GreensFunctionPart and "
                     "GreensFunction (coq/gen/Gen_Leh*.v in the vocabulary coq/theories/LehmannShapes.v); coq/theories/LehmannInterp.v gives the descriptions "
